@@ -1,1 +1,131 @@
-// harnesses for macro
+// Harnesses for the macro helper predicates (C06, C13, C16, C18). Compiled inside `lexer::macro`.
+
+use super::super::verif::{det_xid_continue, det_xid_start};
+
+fn flip(c: char, bit: bool) -> char {
+    if bit && c.is_ascii_alphabetic() {
+        ((c as u8) ^ 0x20) as char
+    } else {
+        c
+    }
+}
+
+/// C16: a mnemonic is recognised independently of ASCII letter case; C06/C13: what is recognised
+/// spells the mnemonic and is not followed by a name character.
+#[kani::proof]
+#[kani::unwind(6)]
+#[kani::stub(unicode_ident::is_xid_continue, det_xid_continue)]
+fn mac_mnemonic_case_and_shape() {
+    let n: usize = kani::any();
+    kani::assume(n >= 1 && n <= 4);
+    let a: [char; 4] = [kani::any(), kani::any(), kani::any(), kani::any()];
+    kani::assume(matches!(a[0], 'e' | 'n' | 'l' | 'g' | 'a' | 'o' | 'i' | 'E' | 'N' | 'L' | 'G' | 'A' | 'O' | 'I'));
+    let m: [bool; 4] = [kani::any(), kani::any(), kani::any(), kani::any()];
+    let b = [flip(a[0], m[0]), flip(a[1], m[1]), flip(a[2], m[2]), flip(a[3], m[3])];
+    let r1 = is_macro_eval_mnemonic(a.iter().copied().take(n));
+    let r2 = is_macro_eval_mnemonic(b.iter().copied().take(n));
+    assert!(r1 == r2, "C16: mnemonic operator recognition depends on letter case");
+    if let (Some(tt), extra) = r1 {
+        let len = 1 + extra as usize;
+        assert!(len <= n, "C13: mnemonic longer than the text");
+        let up = |c: char| c.to_ascii_uppercase();
+        let spelled = match tt {
+            TokenType::KwEQ => len == 2 && up(a[0]) == 'E' && up(a[1]) == 'Q',
+            TokenType::KwIN => len == 2 && up(a[0]) == 'I' && up(a[1]) == 'N',
+            TokenType::KwOR => len == 2 && up(a[0]) == 'O' && up(a[1]) == 'R',
+            TokenType::KwLT => len == 2 && up(a[0]) == 'L' && up(a[1]) == 'T',
+            TokenType::KwLE => len == 2 && up(a[0]) == 'L' && up(a[1]) == 'E',
+            TokenType::KwGT => len == 2 && up(a[0]) == 'G' && up(a[1]) == 'T',
+            TokenType::KwGE => len == 2 && up(a[0]) == 'G' && up(a[1]) == 'E',
+            TokenType::KwNE => len == 2 && up(a[0]) == 'N' && up(a[1]) == 'E',
+            TokenType::KwAND => len == 3 && up(a[0]) == 'A' && up(a[1]) == 'N' && up(a[2]) == 'D',
+            TokenType::KwNOT => len == 3 && up(a[0]) == 'N' && up(a[1]) == 'O' && up(a[2]) == 'T',
+            _ => false,
+        };
+        assert!(spelled, "C06/C13: a mnemonic token must spell its operator");
+        assert!(len == n || !det_xid_continue(a[len]), "C13: a mnemonic followed by a name character is not an operator");
+    } else {
+        // completeness for the two-letter comparison operators followed by a non-name char / end of text
+        let up = |c: char| c.to_ascii_uppercase();
+        let two = n >= 2 && matches!((up(a[0]), up(a[1])), ('E', 'Q') | ('I', 'N') | ('O', 'R') | ('L', 'T') | ('L', 'E') | ('G', 'T') | ('G', 'E') | ('N', 'E'));
+        assert!(!(two && (n == 2 || !det_xid_continue(a[2]))), "C13/C16: a mnemonic operator is not recognised");
+    }
+    kani::cover!(matches!(r1.0, Some(TokenType::KwAND)) && m[1] && n == 4);
+    kani::cover!(matches!(r1.0, Some(TokenType::KwGE)) && m[1] && a[1] == 'e');
+    kani::cover!(r1.0.is_none() && n == 3);
+}
+
+/// C18: the separator predicate only ever asks for a MacroSep before a macro statement keyword or a
+/// macro label, and never after a semicolon, a label, %then or %else.
+#[cfg(feature = "macro_sep")]
+#[kani::proof]
+fn sep_predicate_spec() {
+    let x: u16 = kani::any();
+    kani::assume(x <= TokenType::KwPut as u16);
+    let tok: TokenType = unsafe { std::mem::transmute::<u16, TokenType>(x) };
+    let y: u16 = kani::any();
+    kani::assume(y <= TokenType::KwPut as u16);
+    let has_prev: bool = kani::any();
+    let prev = if has_prev { Some(unsafe { std::mem::transmute::<u16, TokenType>(y) }) } else { None };
+    let r = needs_macro_sep(prev, tok);
+    if r {
+        assert!(is_macro_stat_tok_type(tok) || tok == TokenType::MacroLabel, "C18: MacroSep only directly before a macro statement keyword or macro label");
+        assert!(!matches!(prev, None | Some(TokenType::SEMI | TokenType::MacroLabel | TokenType::KwmThen | TokenType::KwmElse)), "C18: MacroSep never directly after a semicolon, a label, %then or %else (or at the start)");
+    }
+    // the statements that open or close a block are always separated from preceding open code
+    if matches!(tok, TokenType::KwmLet | TokenType::KwmIf | TokenType::KwmDo | TokenType::KwmEnd | TokenType::KwmMacro | TokenType::KwmMend | TokenType::KwmPut | TokenType::MacroLabel)
+        && !matches!(prev, None | Some(TokenType::SEMI | TokenType::MacroLabel | TokenType::KwmThen | TokenType::KwmElse))
+    {
+        assert!(r, "C18: MacroSep missing before a macro statement that follows open code");
+    }
+    kani::cover!(r && tok == TokenType::MacroLabel);
+    kani::cover!(!r && tok == TokenType::KwmDo);
+}
+
+/// C06: N ampersands split into resolve operations = the set bits of N, highest first.
+#[kani::proof]
+#[kani::unwind(34)]
+fn mac_resolve_ops_spec() {
+    let n: u32 = kani::any();
+    kani::assume(n >= 1 && n <= 255);
+    let v = get_macro_resolve_ops_from_amps(n);
+    let mut total = 0u32;
+    let mut prev = 32u8;
+    let mut i = 0;
+    while i < 8 {
+        if i < v.len() {
+            assert!(v[i] < prev, "C06: resolve operations are strictly descending powers");
+            assert!(n & (1 << v[i]) != 0, "C06: a resolve operation that is not a set bit of the ampersand count");
+            total += 1 << v[i];
+            prev = v[i];
+        }
+        i += 1;
+    }
+    assert!(total == n && v.len() <= 8, "C06: resolve operations do not add up to the ampersand count");
+    kani::cover!(v.len() == 3);
+    std::mem::forget(v);
+}
+
+/// C13/C06: an ampersand run is a macro variable reference iff a name start follows it.
+#[kani::proof]
+#[kani::unwind(7)]
+#[kani::stub(unicode_ident::is_xid_start, det_xid_start)]
+fn mac_is_macro_amp_spec() {
+    let n: usize = kani::any();
+    kani::assume(n >= 1 && n <= 5);
+    let a: [char; 5] = [kani::any(), kani::any(), kani::any(), kani::any(), kani::any()];
+    kani::assume(a[0] == '&');
+    let (is_m, cnt) = is_macro_amp(a.iter().copied().take(n));
+    let mut k = 0usize;
+    let mut i = 0;
+    while i < 5 {
+        if i < n && k == i && a[i] == '&' {
+            k += 1;
+        }
+        i += 1;
+    }
+    assert!(cnt as usize == k, "C06: ampersand count");
+    assert!(is_m == (k < n && (det_xid_start(a[k]) || a[k] == '_')), "C13: macro variable trigger = ampersands followed by a name start");
+    kani::cover!(is_m && k == 3);
+    kani::cover!(!is_m && k == n);
+}
